@@ -17,11 +17,18 @@ import (
 
 // C06 correspondence:
 //
-//	(i)  operand-class predicates, exhaustively: universe of ~270 operands × every
-//	     operand type code (0 … oprndtypemax+1), real x86.VerifMatch vs model;
-//	(ii) three-layer agreement: x86 constructor, Context method, package-level
-//	     function called BY NAME (through zz_c06_wrappers.go, generated from
-//	     /repo by cmd/genctors) on matching and near-miss operand tuples.
+//	(i)   operand-class predicates, exhaustively: universe of ~470 operands × every
+//	      operand type code (0 … oprndtypemax+1), real x86.VerifMatch vs model; the
+//	      suffix sets of every suffix class code (`sfxset`);
+//	(ii)  three-layer agreement: x86 constructor, Context method, package-level
+//	      function called BY NAME (through zz_c06_wrappers.go, generated from
+//	      /repo by cmd/genctors) on matching and near-miss operand tuples; quick
+//	      tier: every function outside the V… block, every family with a
+//	      fixed-register class, a seeded sample of V families, the rest swept;
+//	(iii) purity: accepted operand lists replayed over all suffix variants of the
+//	      opcode in shuffled and reversed order (`accept-pure`);
+//	(iv)  terminal / branch / conditional flags against the mnemonic (`accept-attrs`);
+//	(v)   corpus mode (-replay file of `call NAME operand-token…` lines).
 //
 // Populated by the generated file zz_c06_wrappers.go; empty when it is absent.
 var (
@@ -158,6 +165,20 @@ func c06BuildUniverse(t *optabAST) *c06Universe {
 	}
 	add(operand.NewParamAddr("x", 8), operand.NewStackAddr(16), operand.NewDataAddr(operand.NewStaticSymbol("data"), 4),
 		operand.Mem{Base: reg.RAX, Index: reg.RCX, Scale: 0}, operand.Mem{Base: reg.RAX, Index: reg.X3, Scale: 0}, operand.Mem{})
+	// shapes the first universe lacked (audit round 1, C06 item 8): a symbol without base register, the stack pointer
+	// and 8/16-bit registers as index, virtual registers with identifiers above 7 as base and index, X16+ as vector index
+	var hi64 reg.GPVirtual
+	for k := 0; k < 10; k++ {
+		hi64 = col.GP64()
+	}
+	hi32 := col.GP32()
+	add(operand.Mem{Symbol: operand.NewStaticSymbol("sym")}, operand.Mem{Symbol: operand.NewStaticSymbol("sym"), Disp: 8, Index: reg.RCX, Scale: 2},
+		operand.Mem{Base: reg.RAX, Index: reg.RSP, Scale: 1}, operand.Mem{Base: reg.RSP, Index: reg.RSP, Scale: 8},
+		operand.Mem{Base: reg.RAX, Index: reg.CX, Scale: 1}, operand.Mem{Base: reg.RAX, Index: reg.CL, Scale: 1}, operand.Mem{Base: reg.RAX, Index: reg.AH, Scale: 1},
+		operand.Mem{Base: hi64, Index: v64, Scale: 4}, operand.Mem{Base: v64, Index: hi64, Scale: 8, Disp: -8}, operand.Mem{Base: hi32, Index: hi64, Scale: 1},
+		operand.Mem{Base: reg.R15, Index: reg.R14, Scale: 8, Disp: math.MinInt32}, operand.Mem{Base: hi64, Index: reg.X16, Scale: 1}, operand.Mem{Base: hi64, Index: vy, Scale: 2},
+		operand.Mem{Base: reg.RAX, Index: reg.Y16, Scale: 4}, operand.Mem{Base: reg.RAX, Index: reg.StackPointer, Scale: 1}, operand.Mem{Base: reg.RAX, Index: reg.RCX, Scale: 3},
+		hi64, hi32)
 	pm := operand.Mem{Base: reg.RAX}
 	add(&pm, c06Foreign{}, nil)
 	// constants of every type at boundary values
@@ -436,6 +457,41 @@ func c06FormRow(f *optabForm) string {
 	return strings.Join(parts, " ")
 }
 
+// c06Fn is what the harness knows about one function name before calling it.
+type c06Fn struct {
+	name     string
+	ctor     *ctorAST
+	family   string // opcode constant
+	sfx      [2]int
+	forms    []optabForm // rows of the opcode (opcformstable range)
+	formsTok string
+	docTok   string
+	admitted []int // indices into forms whose suffix class admits sfx
+	fixedCls bool  // some admitted form has a fixed-register / fixed-value operand class
+}
+
+// c06FixedClasses are the operand classes that name one register or a small set of values.
+var c06FixedClasses = map[string]bool{"al": true, "cl": true, "ax": true, "eax": true, "rax": true, "xmm0": true,
+	"imm2u": true, "imm16": true, "1": true, "3": true}
+
+func c06SuffixSets(cls uint8) (res string) {
+	defer func() {
+		if recover() != nil {
+			res = "panic"
+		}
+	}()
+	var xs []string
+	for _, s := range x86.VerifSuffixSets(cls) {
+		j := strings.Join(s, ".")
+		if j == "" {
+			j = "-"
+		}
+		xs = append(xs, j)
+	}
+	sort.Strings(xs)
+	return c06StrList(xs)
+}
+
 func init() {
 	register("c06", "operand classes (exhaustive) and three-layer agreement of all instruction entry points", func(args []string) error {
 		f := newStdFlags("c06")
@@ -460,6 +516,20 @@ func init() {
 		if len(c06X86) == 0 || len(c06Method) == 0 || len(c06Global) == 0 {
 			return fmt.Errorf("by-name wrappers missing (zz_c06_wrappers.go was not generated): the three API layers cannot be called")
 		}
+		// corpus mode: a plain-text file of `call NAME optoken…` lines (a JSON replay file written by ./check means
+		// "regenerate the recorded run from its seed" and is ignored here)
+		var corpus []string
+		if *f.replay != "" {
+			ls, err := readLines(*f.replay)
+			if err != nil {
+				return err
+			}
+			for _, l := range ls {
+				if strings.HasPrefix(l, "call ") {
+					corpus = append(corpus, l)
+				}
+			}
+		}
 		o, err := openOut(f)
 		if err != nil {
 			return err
@@ -468,22 +538,31 @@ func init() {
 		r := newRng(*f.seed)
 		u := c06BuildUniverse(t)
 		stats := map[string]any{}
+		thorough := *f.tier == "thorough"
 
 		// (i) operand classes, exhaustive
-		nclass, ntrue := 0, 0
-		for tc := 0; tc <= len(t.OprndTypes)+2; tc++ {
-			for _, op := range u.all {
-				res := c06Match(uint8(tc), op)
-				o.emit(fmt.Sprintf("class %d %s", tc, c06EncOp(op)), res)
-				nclass++
-				if res == "1" {
-					ntrue++
+		if corpus == nil {
+			nclass, ntrue := 0, 0
+			for tc := 0; tc <= len(t.OprndTypes)+2; tc++ {
+				for _, op := range u.all {
+					res := c06Match(uint8(tc), op)
+					o.emit(fmt.Sprintf("class %d %s", tc, c06EncOp(op)), res)
+					nclass++
+					if res == "1" {
+						ntrue++
+					}
 				}
 			}
+			stats["universe_operands"] = len(u.all)
+			stats["class_checks"] = nclass
+			stats["class_checks_true"] = ntrue
+			// (i') the suffix sets of every suffix class code (0 and the codes past the end included): what
+			// `sffxscls.SuffixesSet` and `sffxs.Strings` return, against the model's table
+			for cls := 0; cls <= len(t.SffxsCls)+2; cls++ {
+				o.emit(fmt.Sprintf("sfxset %d", cls), c06SuffixSets(uint8(cls)))
+			}
+			stats["suffix_class_codes"] = len(t.SffxsCls) + 3
 		}
-		stats["universe_operands"] = len(u.all)
-		stats["class_checks"] = nclass
-		stats["class_checks_true"] = ntrue
 		empty := []string{}
 		for n := range t.OprndTypes {
 			name := strings.ToLower(strings.TrimPrefix(t.OprndTypes[n], "oprndtype"))
@@ -529,61 +608,18 @@ func init() {
 			}
 		}
 		sus := c06Suspects(t, cs, ms, gs)
-		// selection
-		budget := *f.n
-		if *f.tier == "thorough" || budget >= len(all) {
-			budget = len(all)
-		}
-		chosen := map[string]bool{}
-		for n := range sus {
-			chosen[n] = true
-		}
-		perm := make([]int, len(all))
-		for i := range perm {
-			perm[i] = i
-		}
-		for i := len(perm) - 1; i > 0; i-- {
-			j := r.intn(i + 1)
-			perm[i], perm[j] = perm[j], perm[i]
-		}
-		// whole families: a chosen function brings in every function of the same opcode (all suffix variants), so
-		// that behaviour depending on what was built before (memoised form selection, shared state keyed too
-		// coarsely) meets the histories that expose it: same opcode, same operand classes, other suffixes
-		family := map[string][]string{}
-		for _, n := range all {
-			if c := ctorByName[n]; c != nil {
-				family[c.OpcConst] = append(family[c.OpcConst], n)
-			}
-		}
-		for _, i := range perm {
-			if len(chosen) >= budget {
-				break
-			}
-			chosen[all[i]] = true
-			if c := ctorByName[all[i]]; c != nil {
-				for _, sib := range family[c.OpcConst] {
-					chosen[sib] = true
-				}
-			}
-		}
-		var sel []string
-		for n := range chosen {
-			sel = append(sel, n)
-		}
-		sort.Strings(sel)
-		stats["functions_total"] = len(all)
-		stats["functions_called"] = len(sel)
-		stats["suspect_functions"] = len(sus)
-
 		hist := map[string]int{}
-		tuples := 0
 		typeName := func(code int) string {
 			if code >= 1 && code <= len(t.OprndTypes) {
 				return strings.ToLower(strings.TrimPrefix(t.OprndTypes[code-1], "oprndtype"))
 			}
 			return ""
 		}
-		for _, name := range sel {
+
+		// per function: suffixes, forms of its opcode, documentation
+		fns := map[string]*c06Fn{}
+		family := map[string][]string{}
+		for _, name := range all {
 			c := ctorByName[name]
 			_, hasX := c06X86[name]
 			_, hasM := c06Method[name]
@@ -594,16 +630,18 @@ func init() {
 				hist["missing-layer"]++
 				continue
 			}
-			o.emit(fmt.Sprintf("accept-names %s 1 1 1", c06Hex(name)), "ok")
+			if corpus == nil {
+				o.emit(fmt.Sprintf("accept-names %s 1 1 1", c06Hex(name)), "ok")
+			}
 			oi, ok := opcIdx[c.OpcConst]
 			if !ok || c.ShapeErr != "" || oi >= len(t.OpcRanges) {
 				hist["unrecognised-ctor-body"]++
 				continue
 			}
-			var sfx [2]int
+			fn := &c06Fn{name: name, ctor: c, family: c.OpcConst}
 			for j, s := range c.SfxConsts {
 				if j < 2 {
-					sfx[j] = sfxIdx[s]
+					fn.sfx[j] = sfxIdx[s]
 				}
 			}
 			rg := t.OpcRanges[oi]
@@ -611,63 +649,289 @@ func init() {
 				hist["bad-range"]++
 				continue
 			}
-			forms := t.Forms[rg[0]:rg[1]]
+			fn.forms = t.Forms[rg[0]:rg[1]]
 			var rows []string
-			for k := range forms {
-				rows = append(rows, c06FormRow(&forms[k]))
+			for k := range fn.forms {
+				rows = append(rows, c06FormRow(&fn.forms[k]))
 			}
-			formsTok := itoa(len(forms)) + " " + strings.Join(rows, " ")
-			if len(forms) == 0 {
-				formsTok = "0"
+			fn.formsTok = itoa(len(fn.forms)) + " " + strings.Join(rows, " ")
+			if len(fn.forms) == 0 {
+				fn.formsTok = "0"
 			}
-			// documentation rows as words
-			var docTok []string
-			docTok = append(docTok, itoa(len(c.Doc)))
+			docTok := []string{itoa(len(c.Doc))}
 			for _, row := range c.Doc {
 				ws := strings.Fields(row)
 				docTok = append(docTok, itoa(len(ws)))
 				docTok = append(docTok, ws...)
 			}
-			// operand tuples: one matching sample per admitted form + near misses
-			var tuplesHere [][]operand.Op
-			var kinds []string
-			for k := range forms {
-				fm := &forms[k]
-				adm := false
+			fn.docTok = strings.Join(docTok, " ")
+			for k := range fn.forms {
+				fm := &fn.forms[k]
 				if fm.Cls >= 1 && fm.Cls <= len(t.SffxsClsSets) {
 					for _, s := range t.SffxsClsSets[fm.Cls-1] {
-						if s == sfx {
-							adm = true
+						if s == fn.sfx {
+							fn.admitted = append(fn.admitted, k)
+							for j := 0; j < fm.Arity && j < len(fm.Operands); j++ {
+								if c06FixedClasses[typeName(fm.Operands[j].Type)] {
+									fn.fixedCls = true
+								}
+							}
+							break
 						}
 					}
 				}
+			}
+			fns[name] = fn
+			family[fn.family] = append(family[fn.family], name)
+		}
+
+		// ---- selection.  Thorough: everything.  Quick, stratified: (a) every function the Go-side pre-check finds
+		// suspicious, (b) every family with a fixed-register / fixed-value operand class (al, cl, ax, eax, rax, xmm0,
+		// imm2u, imm16, 1, 3), (c) EVERY family outside the AVX/AVX-512 `V…` block (672 functions with few forms each:
+		// MOVQ, ADDQ, JMP, RET, XORQ, LEAQ, SHLQ, … are always called), (d) a seeded sample of whole `V…` families up
+		// to the budget.  Whole families always: all suffix variants of an opcode are called together.
+		budget := *f.n
+		chosen := map[string]bool{}
+		addFamily := func(n string) {
+			chosen[n] = true
+			if fn := fns[n]; fn != nil {
+				for _, sib := range family[fn.family] {
+					chosen[sib] = true
+				}
+			}
+		}
+		for n := range sus {
+			chosen[n] = true
+		}
+		nV, nNonV, nFixed := 0, 0, 0
+		for _, n := range all {
+			fn := fns[n]
+			if fn == nil {
+				chosen[n] = true // reported above / below as unrecognised
+				continue
+			}
+			isV := strings.HasPrefix(n, "V")
+			if thorough || budget >= len(all) || !isV || fn.fixedCls {
+				addFamily(n)
+			}
+		}
+		perm := make([]int, len(all))
+		for i := range perm {
+			perm[i] = i
+		}
+		for i := len(perm) - 1; i > 0; i-- {
+			j := r.intn(i + 1)
+			perm[i], perm[j] = perm[j], perm[i]
+		}
+		vChosen := 0
+		for _, i := range perm {
+			if vChosen >= budget {
+				break
+			}
+			if strings.HasPrefix(all[i], "V") && !chosen[all[i]] {
+				before := len(chosen)
+				addFamily(all[i])
+				vChosen += len(chosen) - before
+			}
+		}
+		var sel []string
+		for n := range chosen {
+			sel = append(sel, n)
+		}
+		sort.Strings(sel)
+		for _, n := range sel {
+			if strings.HasPrefix(n, "V") {
+				nV++
+			} else {
+				nNonV++
+			}
+			if fn := fns[n]; fn != nil && fn.fixedCls {
+				nFixed++
+			}
+		}
+		totalNonV := 0
+		for _, n := range all {
+			if !strings.HasPrefix(n, "V") {
+				totalNonV++
+			}
+		}
+		stats["functions_total"] = len(all)
+		stats["functions_called"] = len(sel)
+		stats["functions_called_V"] = nV
+		stats["functions_called_nonV"] = nNonV
+		stats["functions_total_nonV"] = totalNonV
+		stats["functions_called_with_fixed_class"] = nFixed
+		stats["suspect_functions"] = len(sus)
+		stats["opcodes_total"] = len(family)
+
+		tuples := 0
+		// what every (function, operand list) returned the first time it was called in this process: the constructors
+		// are pure, so every later call must return the same
+		first := map[string]string{}
+		type accT struct {
+			ops    []operand.Op
+			opsTok string
+		}
+		accepted := map[string][]accT{} // family -> accepted operand lists of the first pass
+		accSeen := map[string]bool{}
+		fixedDocRows := 0
+
+		// call: one call of all layers of function fn on ops, with every judgement line.  full=false: the constructor
+		// only, judged by the documentation acceptor and the attribute acceptor (the sweep over unselected functions).
+		call := func(fn *c06Fn, ops []operand.Op, kind string, full bool) string {
+			name := fn.name
+			x := c06CallCtor(name, ops)
+			if x.resp == "na" {
+				hist["arity-not-callable"]++
+				return x.resp
+			}
+			tuples++
+			hist[kind]++
+			opsTok := c06EncOps(ops)
+			key := name + " " + opsTok
+			if prev, seen := first[key]; seen {
+				// purity: same function, same operands, earlier in this process
+				o.emit(fmt.Sprintf("accept-pure %s %s %s", c06Hex(name), c06Hex(prev), c06Hex(x.resp)), "ok")
+				hist["pure-checks"]++
+			} else {
+				first[key] = x.resp
+			}
+			if full {
+				cm := c06NewCtx()
+				// a context with history: some nodes and errors already present
+				for q := r.intn(5); q > 0; q-- {
+					cm.RET()
+				}
+				if r.chance(1, 3) {
+					for q := 1 + r.intn(3); q > 0; q-- {
+						cm.ADDQ(operand.U8(1), operand.U8(1)) // earlier errors
+					}
+				}
+				nb, eb, _ := c06State(cm)
+				m := c06CallMethod(cm, name, ops)
+				cg := c06NewCtx()
+				if r.chance(1, 2) {
+					cg.RET()
+				}
+				if r.chance(1, 4) {
+					cg.ADDQ(operand.U8(1), operand.U8(1))
+				}
+				g := c06CallGlobal(cg, name, ops)
+				// exact model comparison of the constructor on the forms of its opcode
+				o.emit(fmt.Sprintf("instr %d %d %s %s", fn.sfx[0], fn.sfx[1], fn.formsTok, opsTok), x.resp)
+				// three layers agree, nodes/errors as addinstruction prescribes
+				o.emit(fmt.Sprintf("accept-layers %s %s %s %s %d %d %d %d", c06Hex(name), c06Hex(x.resp), c06Hex(m.resp), c06Hex(g.resp), m.dnodes, m.derrs, g.dnodes, g.derrs), "ok")
+				hist["layers-checks"]++
+				// addinstruction model on the method's context
+				st := "err"
+				if strings.HasPrefix(x.resp, "ok") {
+					st = "ok"
+				}
+				if x.resp == "err" || st == "ok" {
+					o.emit(fmt.Sprintf("addi %d %d %s", nb, eb, st), fmt.Sprintf("%d %d", nb+m.dnodes, eb+m.derrs))
+				}
+			}
+			// the property itself on the documentation of the function
+			o.emit(fmt.Sprintf("accept-doc %s %s %s => %s", c06Hex(name), fn.docTok, opsTok, x.resp), "ok")
+			hist["doc-checks"]++
+			if fn.fixedCls {
+				fixedDocRows++
+			}
+			if x.resp == "err" {
+				hist["rejected"]++
+			} else if strings.HasPrefix(x.resp, "ok ") {
+				hist["accepted"]++
+				// branch / terminal attributes against what the OPCODE says (independent of the table's feature column)
+				ws := strings.Fields(x.resp)
+				if len(ws) >= 2 {
+					fl := c06FlagsOf(x.resp)
+					o.emit(fmt.Sprintf("accept-attrs %s %s", ws[1], fl), "ok")
+					hist["attr-checks"]++
+					if fl != "0000" && fl != "0001" {
+						hist["attr-checks-branch-or-terminal"]++
+					}
+				}
+				if k := fn.family + " " + opsTok; !accSeen[k] {
+					accSeen[k] = true
+					accepted[fn.family] = append(accepted[fn.family], accT{ops, opsTok})
+				}
+			} else {
+				hist["outcome-"+x.resp]++
+			}
+			return x.resp
+		}
+
+		sample := func(fm *optabForm) ([]operand.Op, bool) {
+			var ops []operand.Op
+			for j := 0; j < fm.Arity && j < len(fm.Operands); j++ {
+				pool := u.byClass[typeName(fm.Operands[j].Type)]
+				if len(pool) == 0 {
+					return nil, false
+				}
+				ops = append(ops, pick(r, pool))
+			}
+			return ops, true
+		}
+
+		if corpus != nil {
+			// replay of hand-picked / minimised call sequences, in file order, in one process
+			byTok := map[string]operand.Op{}
+			for _, op := range u.all {
+				byTok[c06EncOp(op)] = op
+			}
+			for _, l := range corpus {
+				ws := strings.Fields(l)
+				fn := fns[ws[1]]
+				if fn == nil {
+					return fmt.Errorf("corpus: unknown function %q", ws[1])
+				}
+				var ops []operand.Op
+				for _, w := range ws[2:] {
+					op, ok := byTok[w]
+					if !ok {
+						return fmt.Errorf("corpus: operand token %q is not in the universe", w)
+					}
+					ops = append(ops, op)
+				}
+				call(fn, ops, "corpus", true)
+			}
+			stats["operand_tuples"] = tuples
+			stats["histogram"] = hist
+			return writeJSON(*f.stats, stats)
+		}
+
+		// ---- first pass: every selected function, one matching sample per admitted form + near misses
+		isAdmitted := func(fn *c06Fn, k int) bool {
+			for _, a := range fn.admitted {
+				if a == k {
+					return true
+				}
+			}
+			return false
+		}
+		for _, name := range sel {
+			fn := fns[name]
+			if fn == nil {
+				continue
+			}
+			c := fn.ctor
+			called := 0
+			for k := range fn.forms {
+				fm := &fn.forms[k]
+				adm := isAdmitted(fn, k)
 				if !adm && !r.chance(1, 8) {
 					continue // forms of other suffix classes: probed occasionally (must be rejected)
 				}
-				var ops []operand.Op
-				okSample := true
-				for j := 0; j < fm.Arity && j < len(fm.Operands); j++ {
-					pool := u.byClass[typeName(fm.Operands[j].Type)]
-					if len(pool) == 0 {
-						okSample = false
-						break
-					}
-					ops = append(ops, pick(r, pool))
-				}
+				ops, okSample := sample(fm)
 				if !okSample {
 					continue
 				}
-				tuplesHere = append(tuplesHere, ops)
-				if adm {
-					kinds = append(kinds, "match")
-				} else {
-					kinds = append(kinds, "other-suffix-class")
+				kind := "match"
+				if !adm {
+					kind = "other-suffix-class"
 				}
-				// near misses
-				nm := 2
-				if *f.tier == "thorough" {
-					nm = 3
-				}
+				call(fn, ops, kind, true)
+				called++
 				// sibling near miss: an operand of a fixed-register / fixed-value class is replaced by another operand
 				// of the SAME kind and width that is not in the class (CL -> BL, AX -> CX, X0 -> X5, $1 -> $2): called
 				// right after the matching sample, so that a memoised form selection keyed by operand kinds is exposed
@@ -687,8 +951,12 @@ func init() {
 					}
 					mut := append([]operand.Op(nil), ops...)
 					mut[j] = pick(r, cands)
-					tuplesHere = append(tuplesHere, mut)
-					kinds = append(kinds, "sibling")
+					call(fn, mut, "sibling", true)
+				}
+				// near misses: replace / swap for everybody; drop / extra for variadic functions in both tiers
+				nm := 2
+				if thorough || c.Variadic {
+					nm = 3
 				}
 				for q := 0; q < nm; q++ {
 					mut := append([]operand.Op(nil), ops...)
@@ -714,62 +982,126 @@ func init() {
 					default:
 						continue
 					}
-					tuplesHere = append(tuplesHere, mut)
-					kinds = append(kinds, kind)
+					call(fn, mut, kind, true)
 				}
 			}
-			if len(forms) > 0 && len(tuplesHere) == 0 {
+			if len(fn.forms) > 0 && called == 0 {
 				hist["no-sample"]++
 			}
-			for ti, ops := range tuplesHere {
-				tuples++
-				hist[kinds[ti]]++
-				x := c06CallCtor(name, ops)
-				if x.resp == "na" {
-					hist["arity-not-callable"]++
-					continue
+		}
+
+		// ---- second pass, purity under other histories: for every family some operand lists the first pass saw
+		// accepted (preferring those that most members of the family accept) are given to EVERY member of the family —
+		// all suffix variants of the opcode — in a shuffled order and then in the reverse order, back to back.  Every
+		// call is judged by the exact model (`instr`), by the documentation acceptor and by `accept-pure` (same
+		// function + same operands as earlier in the process ⇒ same result).  A result that depends on what was built
+		// before (a memoised form selection, shared mutable state) shows up here.
+		var fams []string
+		for fam := range accepted {
+			fams = append(fams, fam)
+		}
+		sort.Strings(fams)
+		kPer := 4
+		if thorough {
+			kPer = 10
+		}
+		for _, fam := range fams {
+			var members []*c06Fn
+			for _, n := range family[fam] {
+				if chosen[n] && fns[n] != nil {
+					members = append(members, fns[n])
 				}
-				cm := c06NewCtx()
-				// a context with history: some nodes and errors already present
-				for q := r.intn(3); q > 0; q-- {
-					cm.RET()
+			}
+			if len(members) == 0 {
+				continue
+			}
+			cand := accepted[fam]
+			// rank by the number of members accepting the list (probing calls, not judged: selection only)
+			type scored struct {
+				t     accT
+				score int
+				tie   int
+			}
+			var sc []scored
+			for _, tpl := range cand {
+				n := 0
+				for _, m := range members {
+					if strings.HasPrefix(c06CallCtor(m.name, tpl.ops).resp, "ok ") {
+						n++
+					}
 				}
-				if r.chance(1, 3) {
-					cm.ADDQ(operand.U8(1), operand.U8(1)) // an earlier error
+				sc = append(sc, scored{tpl, n, r.intn(1 << 30)})
+			}
+			sort.SliceStable(sc, func(a, b int) bool {
+				if sc[a].score != sc[b].score {
+					return sc[a].score > sc[b].score
 				}
-				nb, eb, _ := c06State(cm)
-				m := c06CallMethod(cm, name, ops)
-				cg := c06NewCtx()
-				if r.chance(1, 2) {
-					cg.RET()
+				return sc[a].tie < sc[b].tie
+			})
+			// half of the picks from the top of the ranking, half anywhere
+			var picks []accT
+			for i := 0; i < len(sc) && len(picks) < (kPer+1)/2; i++ {
+				picks = append(picks, sc[i].t)
+			}
+			for len(picks) < kPer && len(picks) < len(sc) {
+				picks = append(picks, sc[len(picks)+r.intn(len(sc)-len(picks))].t)
+			}
+			for _, tpl := range picks {
+				order := make([]*c06Fn, len(members))
+				copy(order, members)
+				for i := len(order) - 1; i > 0; i-- {
+					j := r.intn(i + 1)
+					order[i], order[j] = order[j], order[i]
 				}
-				g := c06CallGlobal(cg, name, ops)
-				opsTok := c06EncOps(ops)
-				// exact model comparison of the constructor on the forms of its opcode
-				o.emit(fmt.Sprintf("instr %d %d %s %s", sfx[0], sfx[1], formsTok, opsTok), x.resp)
-				if x.resp == "err" {
-					hist["rejected"]++
-				} else if strings.HasPrefix(x.resp, "ok") {
-					hist["accepted"]++
-				} else {
-					hist["outcome-"+x.resp]++
+				for _, m := range order {
+					call(m, tpl.ops, "replay", true)
 				}
-				// the property itself on the documentation of the function
-				o.emit(fmt.Sprintf("accept-doc %s %s %s => %s", c06Hex(name), strings.Join(docTok, " "), opsTok, x.resp), "ok")
-				// three layers agree, nodes/errors as addinstruction prescribes
-				o.emit(fmt.Sprintf("accept-layers %s %s %s %s %d %d %d %d", c06Hex(name), c06Hex(x.resp), c06Hex(m.resp), c06Hex(g.resp), m.dnodes, m.derrs, g.dnodes, g.derrs), "ok")
-				// addinstruction model on the method's context
-				st := "err"
-				if strings.HasPrefix(x.resp, "ok") {
-					st = "ok"
-				}
-				if x.resp == "err" || st == "ok" {
-					o.emit(fmt.Sprintf("addi %d %d %s", nb, eb, st), fmt.Sprintf("%d %d", nb+m.dnodes, eb+m.derrs))
+				for i := len(order) - 1; i >= 0; i-- {
+					call(order[i], tpl.ops, "replay", true)
 				}
 			}
 		}
+
+		// ---- sweep: every function that was NOT selected is still called once per first and last admitted form
+		// through its real constructor and judged by the documentation and attribute acceptors, so that every opcode
+		// code and every suffix combination passes through opc.Forms / opc.String / sffxs.Strings at least once
+		swept := 0
+		for _, name := range all {
+			fn := fns[name]
+			if fn == nil || chosen[name] || len(fn.admitted) == 0 {
+				continue
+			}
+			idx := []int{fn.admitted[0]}
+			if last := fn.admitted[len(fn.admitted)-1]; last != idx[0] {
+				idx = append(idx, last)
+			}
+			for _, k := range idx {
+				if ops, ok := sample(&fn.forms[k]); ok {
+					call(fn, ops, "sweep", false)
+				}
+			}
+			swept++
+		}
+		stats["functions_swept"] = swept
 		stats["operand_tuples"] = tuples
+		stats["doc_checks_on_functions_with_fixed_class"] = fixedDocRows
 		stats["histogram"] = hist
 		return writeJSON(*f.stats, stats)
 	})
+}
+
+// c06FlagsOf extracts the 4-character flag word (terminal, branch, conditional, cancelling) of a canonical response.
+func c06FlagsOf(resp string) string {
+	ws := strings.Fields(resp)
+	// ok OPC <n sfx…> <n ops…> <n in…> <n out…> FLAGS <n isa…>
+	p := 2
+	for list := 0; list < 4 && p < len(ws); list++ {
+		n := 0
+		fmt.Sscanf(ws[p], "%d", &n)
+		p += 1 + n
+	}
+	if p < len(ws) {
+		return ws[p]
+	}
+	return "?"
 }
